@@ -102,3 +102,18 @@ func logNop(fr *frame, a []value) value {
 	}
 	return nil
 }
+
+// VERIF_FIX="tag=value,tag=value": debugging aid — restricts the exploration
+// to paths on which the named harness inputs (first occurrence of the tag)
+// have the given values. Never set by registered commands.
+var fixedInputs = func() map[string]int64 {
+	m := map[string]int64{}
+	for _, kv := range strings.Split(os.Getenv("VERIF_FIX"), ",") {
+		if k, v, ok := strings.Cut(kv, "="); ok {
+			var n int64
+			fmt.Sscanf(v, "%d", &n)
+			m[k] = n
+		}
+	}
+	return m
+}()
